@@ -49,15 +49,12 @@ def operatorOfString : String → Option Operator
   | "&" => some .band | "|" => some .bor | "^" => some .bxor | "<<" => some .shl | ">>" => some .shr
   | _ => none
 
-/-- index of the latest global definition of `name` -/
-def globalIndex (globals : List String) (name : String) : Option Nat :=
-  let rec go (xs : List String) (i : Nat) (best : Option Nat) : Option Nat :=
-    match xs with
-    | [] => best
-    | x :: rest => go rest (i + 1) (if x == name then some i else best)
-  go globals 0 none
+/-- the visible global bindings, innermost / latest first, with their slot numbers -/
+abbrev Vis := List (String × Nat)
 
-def ofExpr (globals : List String) : Nat → Expr → Option CExpr
+def globalIndex (vis : Vis) (name : String) : Option Nat := (vis.find? (·.1 == name)).map (·.2)
+
+def ofExpr (globals : Vis) : Nat → Expr → Option CExpr
   | 0, _ => none
   | fuel+1, e =>
     match e with
@@ -104,20 +101,35 @@ def ofExpr (globals : List String) : Nat → Expr → Option CExpr
       pure (.gset i r)
     | _ => none
 
-/-- top-level statements of the fragment; returns the statements and the global names defined -/
-def ofStmts (fuel : Nat) : List String → List Stmt → Option (List CStmt × List String)
-  | gs, [] => some ([], gs)
-  | gs, .letS _ _ name e :: rest => do
-    -- the name is defined before its initializer is compiled
-    let gs' := gs ++ [name]
-    let e' ← ofExpr gs' fuel e
-    let (ss, gsf) ← ofStmts fuel gs' rest
-    pure (.letG gs.length e' :: ss, gsf)
-  | gs, .exprS _ e :: rest => do
-    let e' ← ofExpr gs fuel e
-    let (ss, gsf) ← ofStmts fuel gs rest
-    pure (.expr e' :: ss, gsf)
-  | _, _ => none
+/-- top-level statements of the fragment (`let`, expression statements, blocks, unlabelled
+`while` loops without break/continue).  `n` = number of global slots defined so far (slots
+are never reused); `vis` = the bindings visible here (a block's bindings end with it).
+Returns the statements, the slot count and the visible bindings afterwards. -/
+def ofStmts : Nat → Nat → Vis → List Stmt → Option (List CStmt × Nat × Vis)
+  | 0, _, _, _ => none
+  | _+1, n, vis, [] => some ([], n, vis)
+  | fuel+1, n, vis, s :: rest =>
+    match s with
+    | .letS _ _ name e => do
+      -- the name is defined before its initializer is compiled
+      let vis' := (name, n) :: vis
+      let e' ← ofExpr vis' fuel e
+      let (ss, nf, visf) ← ofStmts fuel (n + 1) vis' rest
+      pure (.letG n e' :: ss, nf, visf)
+    | .exprS _ e => do
+      let e' ← ofExpr vis fuel e
+      let (ss, nf, visf) ← ofStmts fuel n vis rest
+      pure (.expr e' :: ss, nf, visf)
+    | .block (.mk _ body) => do
+      let (bs, n1, _) ← ofStmts fuel n vis body
+      let (ss, nf, visf) ← ofStmts fuel n1 vis rest
+      pure (.block bs :: ss, nf, visf)
+    | .whileS _ none cond (.mk _ body) => do
+      let c' ← ofExpr vis fuel cond
+      let (bs, n1, _) ← ofStmts fuel n vis body
+      let (ss, nf, visf) ← ofStmts fuel n1 vis rest
+      pure (.whileS c' bs :: ss, nf, visf)
+    | _ => none
 
 /-- executable run of the machine (fuel = number of steps) -/
 def runMachine (C : List Instr) (K : List Val) : Nat → St → Option St
